@@ -32,7 +32,7 @@ fn pred(rng: &mut Rng, q: &str) -> String {
 /// (sql, total_order, shape)
 fn gen_query(rng: &mut Rng) -> (String, bool, &'static str) {
     let w = |rng: &mut Rng, q: &str| if rng.chance(2, 3) { format!(" WHERE {}", pred(rng, q)) } else { String::new() };
-    match rng.below(15) {
+    match rng.below(17) {
         0 | 1 => (format!("SELECT id, a, b FROM t1{}", w(rng, "")), false, "scan-filter"),
         2 => (format!("SELECT a, b, id FROM t1{} ORDER BY a{}, b, id", w(rng, ""), rng.pick(&["", " DESC"])), true, "order-by-total"),
         3 => (format!("SELECT c, id FROM t1{} ORDER BY c{}, id DESC", w(rng, ""), rng.pick(&["", " DESC"])), true, "order-by-text-total"),
@@ -45,6 +45,8 @@ fn gen_query(rng: &mut Rng) -> (String, bool, &'static str) {
         10 => (format!("SELECT id FROM t1 WHERE NOT EXISTS (SELECT 1 FROM t2 WHERE t2.a = t1.a){}", if rng.chance(1, 2) { format!(" AND {}", pred(rng, "t1.")) } else { String::new() }), false, "anti-join"),
         11 => (format!("SELECT DISTINCT a, c FROM t1{}", w(rng, "")), false, "distinct"),
         12 => (format!("SELECT id, b FROM t1 WHERE a >= {} AND b < {}", rng.range(0, 20), rng.range(0, 1000)), false, "index-range-plus-filter"),
+        15 => ("SELECT x.id, y.id FROM t1 AS x INNER JOIN t1 AS y ON x.k = y.k".to_string(), false, "hash-join-keys-repeat-across-partitions"),
+        16 => (format!("SELECT x.id, y.id, y.k FROM t1 AS x INNER JOIN t1 AS y ON x.k = y.k WHERE x.id <= {}", rng.range(1, 4000)), false, "hash-join-keys-repeat-across-partitions"),
         13 => (format!("SELECT x.id, y.id FROM t1 AS x INNER JOIN t2 AS y ON x.a = y.a WHERE b < {} AND id > {}", rng.range(0, 1000), rng.range(0, 20)), false, "join-with-unqualified-shared-names"),
         _ => (format!("SELECT a, b, id FROM t1{} ORDER BY b DESC, id LIMIT {}", w(rng, ""), rng.range(1, 50)), true, "top-n"),
     }
@@ -75,8 +77,10 @@ pub fn run(ctx: &mut Ctx) {
         let n2 = rng.range(0, 40);
         let mut s = Session::new();
         s.record = false;
-        s.must("CREATE TABLE t1 (id INTEGER PRIMARY KEY, a INTEGER, b INTEGER, c VARCHAR(10))");
-        s.must("CREATE TABLE t2 (id INTEGER PRIMARY KEY, a INTEGER, b INTEGER, c VARCHAR(10))");
+        s.must("CREATE TABLE t1 (id INTEGER PRIMARY KEY, a INTEGER, b INTEGER, c VARCHAR(10), k INTEGER)");
+        s.must("CREATE TABLE t2 (id INTEGER PRIMARY KEY, a INTEGER, b INTEGER, c VARCHAR(10), k INTEGER)");
+        // k repeats with a long period: unique inside one build partition, repeated across partitions
+        let period = *rng.pick(&[1000i64, 1100, 1500, 1700]);
         let null_pct = *rng.pick(&[0u64, 10, 10, 30]);
         for (t, n) in [("t1", n1), ("t2", n2)] {
             let mut id = 0;
@@ -87,7 +91,7 @@ pub fn run(ctx: &mut Ctx) {
                     let a = if rng.below(100) < null_pct { "NULL".to_string() } else { rng.range(0, 20).to_string() };
                     let b = if rng.below(100) < null_pct { "NULL".to_string() } else { rng.range(0, 1000).to_string() };
                     let c = if rng.below(100) < null_pct { "NULL".to_string() } else { format!("'{}{}'", rng.pick(&["a", "b", "ab", "x", "zz"]), rng.range(0, 30)) };
-                    rows.push(format!("({}, {}, {}, {})", id, a, b, c));
+                    rows.push(format!("({}, {}, {}, {}, {})", id, a, b, c, id % period));
                 }
                 s.must(&format!("INSERT INTO {} VALUES {}", t, rows.join(", ")));
             }
